@@ -228,7 +228,7 @@ def StacktraceContent(prefix_content="", postfix_content=""):
             if StackLinesContent.HIDE_INTERNAL_STACK:
                 if "__unittest" in f.f_globals:
                     return
-                yield f, f_lineno
+            yield f, f_lineno
 
     extract = traceback.StackSummary.extract(filter_stack(stack))
     extract.reverse()
